@@ -1,7 +1,7 @@
 From Coq Require Import Extraction ExtrOcamlBasic.
 From Coq Require Import NArith.
-From LT Require Import SigmaPrim KeyRingModel SigmaModel PedersenModel.
+From LT Require Import SigmaPrim KeyRingModel SigmaModel PedersenModel SamplerModel ShuffleModel CutChooseModel SkcProveModel.
 Extraction "model.ml" table_oracle verify_nizk compute_nizk keyi_commit keyi_respond keyi_challenge keyi_verify
-  cp_prove cp_verify or_prove_first or_prove_second or_verify masking_value mask mask_prove mask_verify
+  cp_prove cp_verify or_prove_first or_prove_second or_verify vtmf_masking_value vtmf_mask mask_prove mask_verify
   remask remask_fast remask_prove remask_verify decrypt_prove decrypt_init decrypt_update decrypt_final
-  commit_by commit pverify ft_base ft_t N.succ.
+  commit_by commit pverify skc_prove skc_verify create_stack_secret secN secZ prove_round verify_round ft_base ft_t N.succ.
